@@ -194,6 +194,18 @@ Theorem C05_number_comparison_value qk r ma n u d f B :
      else if uc_eqb d ∅ then Ok (mag_eqb (mag_map (λ x, x * f)%Qc ma) n) else Ok false).
 Proof. exact (number_rule qk r ma n u d f B). Qed.
 
+(** ** registry mode [autoconvert_offset_to_baseunit]: between two quantities the flag is read only by
+    [_validate_and_extract], and never for operand units — every theorem above holds in both modes *)
+Theorem C05_autoconvert_mode_irrelevant ac r u d s o f :
+  opnd r u d s o f → validate_extract_mode ac r u = validate_extract r u.
+Proof. exact (validate_extract_mode_opnd ac r u d s o f). Qed.
+(** the arithmetic predicate [_ok_for_muldiv] accepts a lone offset unit when the flag is set; it cannot
+    stand in for "multiplicative" as the guard of the both-zero shortcut *)
+Theorem C05_ok_for_muldiv_is_not_multiplicative r u d s o f m :
+  offs_unit r u d s o f → size u = 1%nat →
+  ok_for_muldiv true r (Qty m u) = Ok true ∧ q_is_mult r (Qty m u) = Ok false.
+Proof. exact (ok_for_muldiv_offs r u d s o f m). Qed.
+
 (** ** non-vacuity on the registry regenerated from /repo *)
 Example C05_default_registry_nonzero_scales : reg_nz default_reg.
 Proof. apply reg_nzb_spec. vm_compute. reflexivity. Qed.
